@@ -29,7 +29,7 @@ check("C03",
       rule="BFS to closure over role-consistent operation histories of one channel on the real channels.Channels; key = (status, pause flags, limit, finalization flag) + reference bits (factored) and the full accessor key to depth 3 (coupling guard). distinct = distinct canonical states.",
       design_ref="DESIGN.md 5/C03",
       level_text="exhaustive reachability of the single-channel state graph for both initiator and responder roles; every transition checked against the completion/bookkeeping/lifecycle rules",
-      level_note="single channel; data positions bounded to 2 per direction; cleanup not held (Completing is observed as Completed at quiescence)")
+      level_note="single channel; data positions bounded to 2 per direction; cleanup not held (Completing is observed as Completed at quiescence); the responder-finalization clause is also checked at manager level (l2node validation-update cells: every validator answer vector on a finalizing responder)")
 
 check("C07",
       packages=["l1chan"],
@@ -201,3 +201,4 @@ CHECKS["C07"]["race_packages"] = ["schedh"]
 CHECKS["C18"]["race_packages"] = ["schedh"]
 CHECKS["C14"]["packages"] = ["l2monitor", "schedh"]
 CHECKS["C17"]["packages"] = ["l2node", "schedh"]
+CHECKS["C03"]["packages"] = ["l1chan", "l2node"]
